@@ -71,7 +71,9 @@ JudgeRead(s, e) ==
        IN member \cup order \cup rep \cup mem \cup buf
 
 JudgeInfo(s, e) ==
-  LET f == s.f IN
+  LET f == s.f
+      X(fld, n) == ~(fld \in DOMAIN e) \/ e[fld] = n          \* exactness fields (older traces do not carry them)
+  IN
   IF e.ret = "panic" THEN {"C10/Panic/Info"}
   ELSE IF e.ret # "ok" THEN {"C08/Info/Error"}
   ELSE (IF e.nChannels = f.sumChans THEN {} ELSE {"C08/Info/Channels"})
@@ -80,14 +82,23 @@ JudgeInfo(s, e) ==
        \cup (IF e.nAttIdx = f.nAttIdx THEN {} ELSE {"C08/Info/AttachmentIndexes"})
        \cup (IF e.nMdIdx = f.nMdIdx THEN {} ELSE {"C08/Info/MetadataIndexes"})
        \cup (IF e.hasStats = f.hasStats /\ (f.hasStats => e.msgs = f.statsMsgs) THEN {} ELSE {"C08/Info/Statistics"})
+       \* every listed item equals, field by field, a record of the summary (decided by the harness on exact values)
+       \cup (IF X("xChannels", f.sumChans) THEN {} ELSE {"C08/Info/Channels/Content"})
+       \cup (IF X("xSchemas", f.sumSchemas) THEN {} ELSE {"C08/Info/Schemas/Content"})
+       \cup (IF X("xChunkIdx", Len(f.cidx)) THEN {} ELSE {"C08/Info/ChunkIndexes/Content"})
+       \cup (IF X("xAttIdx", f.nAttIdx) THEN {} ELSE {"C08/Info/AttachmentIndexes/Content"})
+       \cup (IF X("xMdIdx", f.nMdIdx) THEN {} ELSE {"C08/Info/MetadataIndexes/Content"})
+       \cup (IF X("xStats", TRUE) THEN {} ELSE {"C08/Info/Statistics/Content"})
        \cup (IF e.attOK = e.nAttIdx THEN {} ELSE {"C02/AttachmentByIndex"})
        \cup (IF e.mdOK = e.nMdIdx THEN {} ELSE {"C02/MetadataByIndex"})
 
 (* metadata callback: every metadata record on a scan, every indexed one on an index-based read *)
 JudgeMdCb(s, e) ==
   IF ~("mdcb" \in DOMAIN e) \/ ~e.mdcb \/ Ended(e) # "eof" THEN {}
-  ELSE IF e.mode = "scan" \/ ~Indexable(s.f) THEN (IF e.mds \in {s.f.nMd, s.f.nMdIdx} THEN {} ELSE {"C02/MetadataCallback"})
-  ELSE (IF e.mds = s.f.nMdIdx THEN {} ELSE {"C02/MetadataCallback"})
+  ELSE LET byContent == "mdsMatch" \in DOMAIN e IN       \* the records themselves, as a multiset (older traces: the count)
+       IF e.mode = "scan" \/ ~Indexable(s.f)
+       THEN (IF (byContent /\ e.mdsMatch \in {"all", "indexed", "both"}) \/ (~byContent /\ e.mds \in {s.f.nMd, s.f.nMdIdx}) THEN {} ELSE {"C02/MetadataCallback"})
+       ELSE (IF (byContent /\ e.mdsMatch \in {"indexed", "both"}) \/ (~byContent /\ e.mds = s.f.nMdIdx) THEN {} ELSE {"C02/MetadataCallback"})
 
 (* implementation layer (ReadDecision.tla): the read carries the model's prediction of its outcome class and of the
    iterator that serves it; a disagreement is drift, never a verdict *)
